@@ -284,8 +284,10 @@ def monitorC13 (script : List Cmd) (iters : List Iter) : Option String :=
             -- address queries for the host may also come from a browse that resolves an
             -- instance living on that host: the clause is only evaluated when this daemon
             -- has no browse at all in the history
+            -- ... nor a verify request (it asks for the SRV of the instance and the addresses of
+            -- its host, from whatever is cached)
             let browses := calls.any fun ((c', _) : Cmd × Nat) =>
-              match c' with | .browse d' .. => d' == d | _ => false
+              match c' with | .browse d' .. => d' == d | .verify d' .. => d' == d | _ => false
             let bad := (List.range itArr.size).any fun j =>
               j > ke && j < laterStart && (itArr[j]?.map fun it => it.d == d && askedIn it host [1, 28]).getD false
             if bad && !browses then some s!"query-after-stop host={hexOfBytes host}" else none
